@@ -1,4 +1,5 @@
 import BeffVerif.Model.Spec
+import BeffVerif.Model.SemType
 /-!
 C05 — the set-theoretic meaning of assignability on the fragment of the property: null, booleans, numbers, strings,
 their literals, arrays, tuples with rest, objects with required / optional properties and a string index signature,
@@ -103,7 +104,7 @@ def memR (decls : List Decl) (exact : Bool) : Nat → Ty → JsVal → Option Bo
   | 0, _, _ => none
   | n+1, t, v =>
     match t with
-    | .kw "null" => some (match v with | .null => true | _ => false)
+    | .kw "null" | .kw "undefined" => some (match v with | .null | .undef => true | _ => false)   -- reading S1: null ≈ undefined
     | .kw "boolean" => some (match v with | .bool _ => true | _ => false)
     | .kw "number" => some (match v with | .num _ => true | _ => false)
     | .kw "string" => some (match v with | .str _ => true | _ => false)
@@ -327,13 +328,34 @@ namespace BeffVerif.SubSpec
 open BeffVerif Spec
 
 mutual
-/-- hypothesis `NoObjectUnionOnLeft` (finding D25): no union in the type — at any depth — has two or more object
-members. (Then no positive object atom ever occurs negated in a clause of the difference.) -/
+/-- does an object type occur in the type (through arrays, tuples, unions, intersections, aliases)? -/
+def mentionsObj (decls : List Decl) : Nat → Ty → Bool
+  | 0, _ => true
+  | n+1, t => match t with
+    | .obj _ _ => true
+    | .array x | .paren x | .readonly x => mentionsObj decls n x
+    | .tuple pre rest => mentionsObjL decls n pre || (match rest with | some r => mentionsObj decls n r | none => false)
+    | .union ts | .inter ts => mentionsObjL decls n ts
+    | .ref name args => (match decls.find? (fun d => d.name == name) with
+      | some (.alias _ ps body) => if n < 40 then false else mentionsObj decls (n - 30) (subst (ps.zip args) body)
+      | some (.iface ..) => true
+      | none => false)
+    | _ => false
+def mentionsObjL (decls : List Decl) : Nat → List Ty → Bool
+  | 0, _ => true
+  | _+1, [] => false
+  | n+1, t :: ts => mentionsObj decls n t || mentionsObjL decls n ts
+end
+
+mutual
+/-- hypothesis `NoObjectUnionOnLeft` (finding D25): no union in the type — at any depth — has two or more members
+that mention an object type (directly, or as element of a list). Then no positive object atom ever occurs negated in a
+clause of the difference. -/
 def noObjectUnion (decls : List Decl) : Nat → Ty → Bool
   | 0, _ => false
   | n+1, t =>
     let cs := conjs decls 20 t
-    let objConjs := cs.filter fun c => (c.filter (fun a => !isTop a)).any fun a => (shapeX decls 50 a).isSome
+    let objConjs := cs.filter fun c => (c.filter (fun a => !isTop a)).any fun a => mentionsObj decls 100 a
     objConjs.length ≤ 1 && cs.all fun c => c.all fun a => match a with
       | .array x | .paren x | .readonly x => noObjectUnion decls n x
       | .tuple pre rest => noObjectUnionL decls n pre && (match rest with | some r => noObjectUnion decls n r | none => true)
@@ -353,5 +375,92 @@ def noObjectUnionM (decls : List Decl) : Nat → List (String × Bool × Ty) →
   | _+1, [] => true
   | n+1, (_, _, t) :: ms => noObjectUnion decls n t && noObjectUnionM decls n ms
 end
+
+end BeffVerif.SubSpec
+
+namespace BeffVerif.SubSpec
+open BeffVerif Spec
+
+-- ---------- C07: TypeScript's meaning of the semantic operators (reference) ----------
+/-- the members `Exclude` distributes over: the top-level union members, `boolean` counting as `true | false` -/
+def excludeMembers (decls : List Decl) (a : Ty) : List Ty :=
+  (conjs decls 20 a).flatMap fun c =>
+    match c with
+    | [.kw "boolean"] => [.lit (.bool true), .lit (.bool false)]
+    | [x] => [x]
+    | xs => [.inter xs]
+
+/-- `v ∈ Exclude<A, B>`: some member of A that is not assignable to B contains v (structurally).
+`none` when assignability of a relevant member could not be settled by the enumeration. -/
+def memExclude (decls : List Decl) (a b : Ty) (v : JsVal) : Option Bool :=
+  anyO (fun m =>
+    match Spec.mem decls 200 m v with
+    | some true =>
+      let verdict := inclusion decls m b
+      if !verdict.included then some true
+      else if verdict.complete then some false else none
+    | other => other) (excludeMembers decls a)
+
+/-- declared keys and "has a string index signature" of an object-like type; unions keep the common keys -/
+def keysOfTy (decls : List Decl) (t : Ty) : Option (List String × Bool) :=
+  let per : List (Option (List String × Bool)) := (conjs decls 20 t).map fun c =>
+    match (c.filter fun a => !isTop a).mapM (shapeX decls 50) with
+    | some (s0 :: rest) =>
+      let sh := rest.foldl mergeShape s0
+      some (sh.1.map (fun (m : String × Bool × Ty) => m.1), sh.2.isSome)
+    | _ => none
+  match per.mapM id with
+  | some (k0 :: rest) =>
+    some (rest.foldl (fun (acc : List String × Bool) (k : List String × Bool) => (acc.1.filter (k.1.contains ·), acc.2 && k.2)) k0)
+  | _ => none
+
+/-- `v ∈ keyof T`: a key of every union member (declared, or covered by its string index signature) -/
+def memKeyof (decls : List Decl) (t : Ty) (v : JsVal) : Option Bool :=
+  let per : List (Option (List String × Bool)) := (conjs decls 20 t).map fun c =>
+    match (c.filter fun a => !isTop a).mapM (shapeX decls 50) with
+    | some (s0 :: rest) =>
+      let sh := rest.foldl mergeShape s0
+      some (sh.1.map (fun (m : String × Bool × Ty) => m.1), sh.2.isSome)
+    | _ => none
+  match per.mapM id, v with
+  | some ks, .str s => some (ks.all fun (k : List String × Bool) => k.1.contains s || k.2)
+  | some ks, .num _ => if ks.all (fun (k : List String × Bool) => k.2) then none else some false   -- `number` under an index signature: not compared
+  | some _, _ => some false
+  | none, _ => none
+
+/-- `T[K]` for an object type and string-literal keys, an array / tuple and numeric keys -/
+def idxTy (decls : List Decl) (t k : Ty) : Option Ty :=
+  let keyLits := (conjs decls 20 k).map fun c => match c with
+    | [.lit (.str s)] => some (Sum.inl s)
+    | [.lit (.num n)] => some (Sum.inr (some n))
+    | [.kw "number"] => some (Sum.inr none)
+    | _ => none
+  match keyLits.mapM id with
+  | none => none
+  | some ks =>
+    let per := (conjs decls 20 t).map fun c =>
+      match (c.filter fun a => !isTop a) with
+      | [.array e] => if ks.all (fun k => match k with | .inr _ => true | _ => false) then some [e] else none
+      | [.tuple pre rest] =>
+        ks.mapM fun k => match k with
+          | .inr (some n) => (match Sem.natOfCanonS n with
+            | some i => (match pre[i]? with
+              | some x => some x
+              | none => rest)
+            | none => none)
+          | .inr none => some (.union (pre ++ rest.toList))
+          | .inl _ => none
+      | atoms => match atoms.mapM (shapeX decls 50) with
+        | some (s0 :: rest) =>
+          let sh := rest.foldl mergeShape s0
+          ks.mapM fun k => match k with
+            | .inl s => (match sh.1.find? (·.1 == s) with
+              | some (_, opt, ty) => some (if opt then Ty.union [ty, .kw "undefined"] else ty)
+              | none => sh.2.map fun (_, tv) => tv)
+            | .inr _ => none
+        | _ => none
+    match per.mapM id with
+    | some parts => some (.union parts.flatten)
+    | none => none
 
 end BeffVerif.SubSpec
